@@ -280,11 +280,11 @@ def compile_probes(pid, cases, pkg="vx-replay-dflt", sub="dflt"):
 
 def extra_checks_inner(pid, tier):
     try:
-        if pid in ("C13", "C07", "C03", "C14", "C06", "C04"):
+        if pid in ("C13", "C07", "C03", "C14", "C06", "C04", "C01"):
             import vxbounded
             out = []
             try:
-                if pid in ("C13", "C03", "C04"):
+                if pid in ("C13", "C03", "C04", "C01"):
                     out += vxbounded.c13_json_typerefs(tier)
                 if pid == "C06":
                     out += vxbounded.c06_catalogue(tier)
